@@ -85,16 +85,22 @@ def _jet(env, f, x, h=1e-6):
     return v, (_ev(env, f, x + h) - _ev(env, f, x - h)) / (2 * h), (_ev(env, f, x + h) - 2 * v + _ev(env, f, x - h)) / h ** 2
 
 
-def ob_monotonic(env):
+def ob_monotonic(env, want=None):
     L, w, Nn, N = _params(env)
     dl, du = env.real("d_lower", pos=True), env.real("d_upper", pos=True)
+    if want is not None:
+        concave_cond = L < 0.5 * (du + dl) * N / Nn - 1.0e-8 * L
+        env.assume(concave_cond if want == "concave" else (~concave_cond if env.mode == "sym" else not concave_cond), "case selection")
     r = _region()
     try:
         f, roots = _call(env, r.getMonotonicPoloidalDistanceFunc, L, N, Nn, d_lower=dl, d_upper=du)
     except ValueError:
         env.tag("refused")
         return
-    case = "concave" if roots else "convex"
+    if env.mode == "sym":
+        case = "concave" if roots else "convex"
+    else:
+        case = "concave" if L < 0.5 * (du + dl) * N / Nn - 1.0e-8 * L else "convex"
     env.tag(case)
     env.witness("returned_" + case)
     env.claim_eq(case + ":s(0)=0", _ev(env, f, 0 * N), 0)
@@ -246,9 +252,12 @@ def ob_get_distance(env):
 
 ENCM = ["hypnotoad.core.equilibrium:EquilibriumRegion.getMonotonicPoloidalDistanceFunc"]
 ENCS = ["hypnotoad.core.equilibrium:EquilibriumRegion.getSqrtPoloidalDistanceFunc"]
-OBLIGATIONS.append(Ob("monotonic", ob_monotonic, tier="quick", family="monotonic", encodes=ENCM, stubs=["brentq -> root contract", "log uninterpreted + axioms"],
-                      desc="convex and concave cases: s(0)=0, s(N)=L, end gradients d_lower/d_upper in normalised index, straight-line extrapolation, ds/di>0 on [0,N], nesting (convex)",
-                      bounds="L, N_norm, w, d_lower, d_upper > 0 real", timeout_ms=5000, final_timeout_ms=20000, wall_s=600))
+for _case in ("convex", "concave"):
+    OBLIGATIONS.append(Ob("monotonic_" + _case, (lambda c: (lambda env: ob_monotonic(env, c)))(_case), tier="quick", family="monotonic", encodes=ENCM,
+                          stubs=["brentq -> root contract", "log uninterpreted + axioms"],
+                          desc="%s case: s(0)=0, s(N)=L, end gradients d_lower/d_upper in normalised index, straight-line extrapolation%s" % (
+                              _case, ", ds/di>0 on [0,N], nesting" if _case == "convex" else ""),
+                          bounds="L, N_norm, w, d_lower, d_upper > 0 real", timeout_ms=5000, final_timeout_ms=20000, wall_s=240))
 for (bl, al, bu, au) in [(1, 0, 0, 0), (1, 1, 0, 0), (0, 0, 1, 0), (0, 0, 1, 1), (1, 0, 1, 0), (1, 1, 1, 0), (1, 0, 1, 1), (1, 1, 1, 1)]:
     nm = "sqrt_%s%s_%s%s" % ("b" if bl else "-", "a" if al else "-", "b" if bu else "-", "a" if au else "-")
     OBLIGATIONS.append(Ob(nm, _mk_sqrt(bl, al, bu, au), tier="quick", family="sqrt", encodes=ENCS, stubs=["exp uninterpreted (extrapolations)"],
